@@ -122,6 +122,15 @@ class EroWorld(World):
             if isinstance(o, Sym) and o.kind == "erosion":
                 if name == "fill":
                     return None
+                if name in ("begin", "end", "cbegin", "cend"):
+                    from ..interp import WholeRange
+
+                    class _Ero:
+                        def fill_all(self_inner, v):
+                            return None
+                    if not hasattr(self, "_ero_range"):
+                        self._ero_range = _Ero()
+                    return WholeRange(self._ero_range, name in ("end", "cend"))
                 i = it.rv(it.eval(args[0], frame))
                 return EroRef(self, i)
         return NOT_HANDLED
